@@ -94,6 +94,11 @@ impl Shape {
 }
 
 fn value_for(ty: Ty) -> BoxedStrategy<f64> {
+    // zero (the type's Default) is a value like any other and must be copied / animated as such
+    prop_oneof![1 => Just(0.0f64).boxed(), 6 => value_for_nonzero(ty)].boxed()
+}
+
+fn value_for_nonzero(ty: Ty) -> BoxedStrategy<f64> {
     match ty {
         Ty::F32 | Ty::F64 => prop_oneof![(-400i32..=400).prop_map(|v| v as f64 / 4.0), (-1.0e4f32..1.0e4).prop_map(|v| v as f64)].boxed(),
         Ty::U8 => (0u32..=255).prop_map(|v| v as f64).boxed(),
